@@ -2,7 +2,7 @@
 # tools/sweep.sh "<seeds>" [ids...] : run quick checks for several seeds on the unchanged tree; prints only summary lines
 SEEDS=${1:-"0 1 2 3"}; shift
 IDS=${@:-"C01 C02 C03 C04 C05 C06 C07 C08 C09 C10 C11 C12 C13 C14 C15 C16"}
-cd /verif
+cd "$(dirname "$(readlink -f "$0")")/.."
 for sd in $SEEDS; do for id in $IDS; do
   out=$(VERIF_SEED=$sd ./check $id quick 2>&1 | grep -E "^C[0-9]+ quick|^VIOLATION|^KNOWN" | tr '\n' ' ')
   echo "seed=$sd $out"
